@@ -497,7 +497,13 @@ def tR6 : Table :=
 /-- `B[x: 0x, y: Nil]` -/
 def vR6 : V := .tup (some 4) (.cons (some 5) (.bin []) (.cons (some 6) (.tup (some 2) .nil) .nil))
 
-theorem R6_accepted : compatV { cycleKeepsInnerStack := true } tR6 64 9 13 = some true := by decide
+/-- the rules of the code before ecfc5db (assumptions were still keyed by ids alone then: the
+acceptance needs an assumption that closes on itself across the polluted stacks) -/
+def vrBeforeR6 : Variant where
+  cycleKeepsInnerStack := true
+  asmKeyedByIdsOnly := true
+
+theorem R6_accepted : compatV vrBeforeR6 tR6 64 9 13 = some true := by decide
 /-- with the entries above the target set aside the pair is rejected -/
 theorem R6_repaired : isCompatible tR6 64 9 13 = some false := by decide
 theorem R6_closed : Ordered tR6 ∧ Closed tR6 9 ∧ Closed tR6 13 :=
@@ -556,13 +562,13 @@ theorem R6_value_not_right : ¬ inh tR6 [] 13 vR6 := by
 /-- **before ecfc5db the full soundness statement did not hold** (recursive first-order types with a
 back-reference below a nested union) -/
 theorem compat_sound_failed_on_recursive_types_before_R6 :
-    ¬ CompatSoundStatementV { cycleKeepsInnerStack := true } := fun h =>
+    ¬ CompatSoundStatementV vrBeforeR6 := fun h =>
   R6_value_not_right (h tR6 9 13 64 R6_closed.1 R6_closed.2.1 R6_closed.2.2 R6_accepted vR6 R6_value_left)
 
-/-- R7 (OPEN): 0 `^1`, 1 `^2`, 2 never, 3 `#^1 -> ^2` (a function from itself to the enclosing union),
+/-- R7 (fixed by dc4f190): 0 `^1`, 1 `^2`, 2 never, 3 `#^1 -> ^2` (a function from itself to the enclosing union),
 4 `F[#^1 -> ^2]`, 5 `Ok`, 6 `'p = Ok | F[#^1 -> ^]`, 7 `Z`, 8 `'q = Ok | F[#^1 -> ^] | Z`. The function type 3 is
 ONE id; below `'p` it is `μf. #f -> 'p`, below `'q` it is `μg. #g -> 'q`. `f ≤ g` asks `g ≤ f` for the parameter;
-that question is the same pair of ids `(3, 3)`, the assumption just made answers it, and `'p ≤ 'q` is accepted
+that question is the same pair of ids `(3, 3)`, the assumption just made answered it, and `'p ≤ 'q` was accepted
 although `g ≤ f` needs `'q ≤ 'p`, which fails on `Z`. (F = 2, Z = 3) -/
 def tR7 : Table :=
   ⟨[.cycle 1, .cycle 2, .union [], .callable 0 1 2, .tuple 2, .tuple 1, .union [5, 4], .tuple 3,
@@ -576,9 +582,13 @@ def tR7u : Table :=
    [⟨none, []⟩, ⟨some 1, []⟩, ⟨some 1, []⟩, ⟨some 2, [(none, 4)]⟩, ⟨some 1, []⟩, ⟨some 2, [(none, 11)]⟩,
     ⟨some 3, []⟩]⟩
 
-theorem R7_accepted : isCompatible tR7 64 6 8 = some true := by decide
-/-- …and refused as soon as the two occurrences of the function type do not share their id -/
-theorem R7_refused_unfolded : isCompatible tR7u 64 6 14 = some false := by decide
+theorem R7_accepted : compatV { asmKeyedByIdsOnly := true } tR7 64 6 8 = some true := by decide
+/-- …and refused as soon as the two occurrences of the function type do not share their id, by the old
+rule as by the code as it is -/
+theorem R7_refused_unfolded : compatV { asmKeyedByIdsOnly := true } tR7u 64 6 14 = some false ∧
+    isCompatible tR7u 64 6 14 = some false := by decide
+/-- an assumption that carries its stacks does not answer the converse question -/
+theorem R7_repaired : isCompatible tR7 64 6 8 = some false := by decide
 /-- the converse, which the parameter position needs, is refused in both tables -/
 theorem R7_converse_refused : isCompatible tR7 64 8 6 = some false ∧ isCompatible tR7u 64 14 6 = some false := by
   decide
@@ -613,6 +623,7 @@ def vrBeforeRecursiveFixes : Variant where
   cycleSameDepthShortcut := true
   equalIdsIgnoreContext := true
   cycleKeepsInnerStack := true
+  asmKeyedByIdsOnly := true
 
 theorem R4_old_rule_no_answer : compatV vrBeforeRecursiveFixes tR4 64 3 4 = none := by decide
 theorem R4_repaired : isCompatible tR4 16 3 4 = some true ∧ isCompatible tR4 16 4 3 = some true := by
